@@ -163,7 +163,7 @@ func ruleResetComplete(ctx *Ctx, rule, pkg, typeName, method string, also []stri
 		if resetWrites[n] {
 			r.Ok(rule, key, q.Pos(reset.Pos()), "written by "+strings.Join(w, ", ")+"; re-initialised by "+method)
 		} else {
-			r.Violation(rule, key, q.Pos(reset.Pos()), fmt.Sprintf("field %s is per-message state (written by %s) but %s does not re-initialise it on every path: a %s that is reused (Decoder.ReuseBuffer, transports) serves state of the previous message", n, strings.Join(w, ", "), method, typeName))
+			r.Violation(rule, key, q.Pos(reset.Pos()), fmt.Sprintf("field %s is state that other functions write (%s) but %s does not re-initialise it on every path: a %s that is reused keeps serving what it held before (a Message under Decoder.ReuseBuffer serves the previous message's segments; a node map keeps the old registry's schema)", n, strings.Join(w, ", "), method, typeName))
 		}
 	}
 	if len(names) == 0 {
